@@ -549,3 +549,148 @@ func ruleV4(r *Run) {
 		})
 	})
 }
+
+// ---------------------------------------------------------------------------------------
+// V3 reused receive buffers and pooled bodies are copied out (C12)
+
+func init() {
+	register("V3", "bytes taken from a buffer that is reused (a local byte array read into by a loop, the pooled body of a fasthttp request/response) are copied before they are returned, dispatched to a goroutine / worker, sent on a channel or stored: otherwise a later datagram or request overwrites what an earlier one delivered", 4, ruleV3)
+}
+
+func ruleV3(r *Run) {
+	p := r.P
+	p.EachFunc(func(pkg *packages.Package, fd *ast.FuncDecl) {
+		rel := p.RelPkg(pkg.Types)
+		if !strings.HasPrefix(rel, "rpc/") {
+			return
+		}
+		info := pkg.TypesInfo
+		fname := p.DeclName(fd)
+		// volatile sources
+		isArrayLocal := func(e ast.Expr) bool {
+			o := identObj(info, e)
+			if o == nil {
+				return false
+			}
+			if a, ok := o.Type().Underlying().(*types.Array); ok {
+				if b, ok := a.Elem().Underlying().(*types.Basic); ok && b.Kind() == types.Uint8 && a.Len() > 64 {
+					return true
+				}
+			}
+			return false
+		}
+		volatile := func(e ast.Expr) string {
+			e = ast.Unparen(e)
+			if se, ok := e.(*ast.SliceExpr); ok && isArrayLocal(se.X) {
+				return "slice of the reused buffer " + types.ExprString(se.X)
+			}
+			if call, ok := e.(*ast.CallExpr); ok {
+				if f := Callee(info, call); f != nil && f.Pkg() != nil && f.Pkg().Path() == "github.com/valyala/fasthttp" {
+					switch f.Name() {
+					case "Body", "Peek", "Method", "Path", "RequestURI", "Host", "PostBody":
+						return "pooled fasthttp " + f.Name() + "()"
+					}
+				}
+			}
+			return ""
+		}
+		tainted := map[types.Object]string{}
+		for changed := true; changed; {
+			changed = false
+			ast.Inspect(fd.Body, func(n ast.Node) bool {
+				as, ok := n.(*ast.AssignStmt)
+				if !ok || len(as.Lhs) != len(as.Rhs) {
+					return true
+				}
+				for i, rhs := range as.Rhs {
+					src := volatile(rhs)
+					if src == "" {
+						base := ast.Unparen(rhs)
+						if se, ok := base.(*ast.SliceExpr); ok {
+							base = ast.Unparen(se.X)
+						}
+						if o := identObj(info, base); o != nil {
+							src = tainted[o]
+						}
+					}
+					if src != "" {
+						if l := identObj(info, as.Lhs[i]); l != nil && tainted[l] == "" {
+							if _, isSlice := l.Type().Underlying().(*types.Slice); isSlice {
+								tainted[l] = src
+								changed = true
+							}
+						}
+					}
+				}
+				return true
+			})
+		}
+		srcOf := func(e ast.Expr) string {
+			if s := volatile(e); s != "" {
+				return s
+			}
+			base := ast.Unparen(e)
+			if se, ok := base.(*ast.SliceExpr); ok {
+				base = ast.Unparen(se.X)
+			}
+			if o := identObj(info, base); o != nil {
+				return tainted[o]
+			}
+			return ""
+		}
+		n := 0
+		flag := func(pos token.Pos, what string, e ast.Expr) {
+			src := srcOf(e)
+			if src == "" {
+				return
+			}
+			n++
+			r.Viol(fmt.Sprintf("volatile bytes %s in %s #%d", what, fname, n), pos, fmt.Sprintf("%s (%s) is %s without being copied: the buffer is reused for the next datagram/request, so the bytes delivered change under the receiver (truncation, or bytes of another message or client)", types.ExprString(e), src, what))
+		}
+		hasSource := len(tainted) > 0
+		ast.Inspect(fd.Body, func(m ast.Node) bool {
+			if vs, ok := m.(*ast.ValueSpec); ok {
+				for _, id := range vs.Names {
+					if isArrayLocal(id) {
+						hasSource = true
+					}
+				}
+			}
+			return true
+		})
+		ast.Inspect(fd.Body, func(m ast.Node) bool {
+			switch x := m.(type) {
+			case *ast.ReturnStmt:
+				for _, res := range x.Results {
+					flag(res.Pos(), "returned", res)
+				}
+			case *ast.SendStmt:
+				flag(x.Pos(), "sent on a channel", x.Value)
+				if cl, ok := ast.Unparen(x.Value).(*ast.CompositeLit); ok {
+					for _, el := range cl.Elts {
+						if kv, ok := el.(*ast.KeyValueExpr); ok {
+							flag(kv.Pos(), "sent on a channel", kv.Value)
+						}
+					}
+				}
+			case *ast.GoStmt:
+				for _, a := range x.Call.Args {
+					flag(a.Pos(), "handed to a goroutine", a)
+				}
+			case *ast.CallExpr:
+				if f := Callee(info, x); f != nil && p.InRepo(f) {
+					name := p.FuncName(f)
+					if name == "rpc/core.Service.Handle" || strings.HasSuffix(name, ".Handler.task") || strings.HasSuffix(name, ".Handler.run") {
+						for _, a := range x.Args {
+							flag(a.Pos(), "dispatched", a)
+						}
+					}
+				}
+			}
+			return true
+		})
+		if hasSource && n == 0 {
+			r.Ok("volatile bytes copied out in "+fname, fd.Pos(), fmt.Sprintf("%d view(s) of reused storage, none escapes", len(tainted)))
+		}
+	})
+}
